@@ -257,3 +257,122 @@ func ruleA4Empty(c *Ctx) {
 }
 
 var _ = token.ADD
+
+// ---------------------------------------------------------------- A4-nonempty-create
+
+const textNonEmptyCreate = "A4-nonempty-create: when a key is created with a fresh empty list, hash or set as its value, every path from the creation to the end of the critical section inserts an element into that aggregate (loops whose every iteration inserts are assumed to run at least once: the grammar guarantees non-empty argument lists) — otherwise a command that ends up doing nothing leaves an empty key behind"
+
+func ruleNonEmptyCreate(c *Ctx) {
+	c.S.Rule("A4-nonempty-create", textNonEmptyCreate, 4)
+	mm := c.M.Muts()
+	if len(mm.errs) > 0 {
+		c.S.Undecided("A4-nonempty-create", "model", "-", mm.errs[0])
+		return
+	}
+	p := c.Prog
+	fPayload := p.Field("storeKey", "payload")
+	fCount := p.Field("storeList", "count")
+	// functions that insert into a list they are given
+	listInsert := map[*ssa.Function]bool{}
+	for _, fn := range c.SrcFuncs() {
+		for _, s := range mm.sites[fn] {
+			if s.Field == fCount && !s.Shrinks {
+				listInsert[fn] = true
+			}
+		}
+	}
+	dictGet := map[*ssa.Function]bool{}
+	for _, fn := range c.SrcFuncs() {
+		if fn.Signature.Recv() != nil && p.isPkgType(fn.Signature.Recv().Type(), "redisDict") && fn.Signature.Results().Len() == 2 && !mm.dictStore[fn] && !mm.dictRem[fn] {
+			dictGet[fn] = true
+		}
+	}
+	isInsert := func(in ssa.Instruction) bool {
+		call, ok := in.(ssa.CallInstruction)
+		if !ok {
+			return false
+		}
+		cal := call.Common().StaticCallee()
+		if cal == nil {
+			return false
+		}
+		if listInsert[cal] {
+			return true
+		}
+		if mm.dictStore[cal] && len(call.Common().Args) > 0 {
+			_, rf := loadedField(call.Common().Args[0])
+			return rf != mm.fKeyspace // insertion into a nested dictionary
+		}
+		return false
+	}
+	// creation sites: store of a fresh empty aggregate as a key's payload
+	var sites []*MutSite
+	for _, fn := range c.SrcFuncs() {
+		for _, s := range mm.sites[fn] {
+			if s.Field != fPayload {
+				continue
+			}
+			st := s.In.(*ssa.Store)
+			v := st.Val
+			if mi, ok := v.(*ssa.MakeInterface); ok {
+				v = mi.X
+			}
+			if !(p.isPkgType(v.Type(), "storeList") || p.isPkgType(v.Type(), "redisDict")) {
+				continue
+			}
+			if !(isFresh(v) || mm.freshDict(v)) {
+				continue
+			}
+			sites = append(sites, s)
+		}
+	}
+	cm := c.M.newCover(isInsert)
+	cm.forwardOnly = true
+	cm.assumeLoopsRun = true
+	// a lookup in a dictionary that was created on this very path finds nothing
+	cm.pruneEdge = func(a, b *ssa.BasicBlock) bool {
+		ifi, ok := a.Instrs[len(a.Instrs)-1].(*ssa.If)
+		if !ok {
+			return false
+		}
+		ex, ok := ifi.Cond.(*ssa.Extract)
+		if !ok || ex.Index != 1 {
+			return false
+		}
+		call, ok := ex.Tuple.(*ssa.Call)
+		if !ok || !dictGet[call.Call.StaticCallee()] || len(call.Call.Args) == 0 {
+			return false
+		}
+		recv := call.Call.Args[0]
+		mayBeFresh := mm.freshDict(recv)
+		if phi, isPhi := recv.(*ssa.Phi); isPhi {
+			for _, e := range phi.Edges {
+				if mm.freshDict(e) {
+					mayBeFresh = true
+				}
+			}
+		}
+		return mayBeFresh && a.Succs[0] == b // the "found" edge
+	}
+	sel := map[*MutSite]bool{}
+	for _, s := range sites {
+		sel[s] = true
+	}
+	bad := map[*MutSite]bool{}
+	seen := map[string]bool{}
+	for _, l := range cm.Uncovered(func(s *MutSite) bool { return sel[s] }) {
+		bad[l.site] = true
+		key := fnName(l.at) + ":" + l.site.key()
+		if seen[key] {
+			continue
+		}
+		seen[key] = true
+		c.S.Bad("A4-nonempty-create", key, c.Pos(c.InstrPos(l.site.In)),
+			fmt.Sprintf("%s creates a key with an empty aggregate and some path through %s%s ends the critical section without inserting an element: the key exists empty (EXISTS 1, TYPE list/hash/set)", fnName(l.site.Fn), fnName(l.at), chainString(l.chain)))
+	}
+	for _, s := range sites {
+		if !bad[s] {
+			c.S.OK("A4-nonempty-create", s.key(), c.Pos(c.InstrPos(s.In)), "an insertion follows on every path (directly or in every caller)")
+		}
+	}
+}
